@@ -139,7 +139,8 @@ async fn run(rec: Value) -> Value {
     match end {
         "drop" => drop(c),
         "badack" => { c.write_all(&[0x40, 0x02, 0x00, 0x4D]).await.ok(); tokio::time::sleep(Duration::from_millis(150)).await; drop(c); }
-        "disconnect" => { c.write_all(&[0xE0, 0x00]).await.ok(); tokio::time::sleep(Duration::from_millis(100)).await; drop(c); }
+        "disconnect_props" if v == 5 => { c.write_all(&[0xE0, 0x08, 0x00, 0x06, 0x1F, 0x00, 0x03, b'b', b'y', b'e']).await.ok(); tokio::time::sleep(Duration::from_millis(100)).await; drop(c); }
+        "disconnect" | "disconnect_props" => { c.write_all(&[0xE0, 0x00]).await.ok(); tokio::time::sleep(Duration::from_millis(100)).await; drop(c); }
         _ => { tokio::time::sleep(Duration::from_millis(2300)).await; drop(c); }      // silent for more than 1.5 keep-alive intervals
     }
     let want_live = rec["live"].as_u64().unwrap() as usize;
